@@ -37,6 +37,8 @@ func c01(c *Ctx) {
 	c01guarded(c)
 	c01status(c)
 	c01classify(c)
+	// R13 (round 8)
+	chainContains(c, "C01.R13", "Breaker", "BreakerHandler", "the breaker middleware")
 }
 
 func paramByType(f *ssa.Function, ts string) *ssa.Parameter { return paramOfType(f, ts) }
